@@ -21,7 +21,7 @@
       * `quadratic_roots`, `quadratic_factor`, `quadratic_q_zero`: both values of `quadraticSolve`
         are zeros, they are all the zeros with multiplicity, and the `q == 0` branch is taken only
         for `b = c = 0` (sign rule: no cancellation in `b + sgn·s`);
-      * `cubic_roots`, `cubic_factor`: likewise for `cubicSolve`, both branches; `cBase_ne_zero`
+      * `cubic_roots`, `cubic_factor`: likewise for `cubicSolve`, all three branches (the `base == 0` guard of fix D12 is dead over ℂ); `cBase_ne_zero`
         shows that the sign rule `if Re(conj d1 · sq) < 0 {d1 - sq} else {d1 + sq}` (no
         cancellation: `|d1 ± sq|² = |d1|² + |sq|² ± 2 Re(conj d1 · sq)`) makes `base ≠ 0` outside
         the triple-root branch, so the division `d0 / k` is never a division by zero there.
@@ -451,7 +451,7 @@ theorem cU_spec : toC cU ^ 2 + toC cU + 1 = 0 := by
   · simp [sq, Complex.mul_im]; ring
 
 /-- The three values returned by `cubicSolve` are ALL the zeros of `a x³ + b x² + c x + d`, with
-    multiplicity (`a ≠ 0`; real interpretation, both branches of the model). -/
+    multiplicity (`a ≠ 0`; real interpretation, all three branches of the model). -/
 theorem cubic_factor (a b c d : Cx ℝ) (ha : toC a ≠ 0) :
     ∃ r0 r1 r2 : Cx ℝ, cubicSolve a b c d = #[r0, r1, r2] ∧
       ∀ X : ℂ, toC a * (X - toC r0) * (X - toC r1) * (X - toC r2) =
